@@ -189,6 +189,26 @@ def make_lens(case):
     return torch.tensor(case["lens"], dtype=getattr(torch, case.get("lens_dtype", "int64")))
 
 
+def run_history_step(mod, step):
+    """One earlier use of the SAME module object (its result is not judged; an exception on these in-domain
+    batches is reported like one of the judged call).  Genuine torch.rand draws, seeded."""
+    import torch
+    torch.manual_seed(step["seed"])
+    x = make_feats({"N": step["N"], "T": step["T"], "F": step["F"], "dtype": step["dtype"],
+                    "feats": {"mode": "randn", "seed": step["seed"]}})
+    lens = None if step["lens"] is None else torch.tensor(step["lens"])
+    if step["op"] == "draw_apply":
+        out = mod.apply_parameters(x, mod.draw_parameters(x, lens), lens)
+    else:
+        mod.train(step["training"])
+        try:
+            out = mod(x, lens)
+        finally:
+            mod.train(True)
+    if tuple(out.shape) != tuple(x.shape):
+        raise RuntimeError(f"earlier call on the same module: output shape {tuple(out.shape)} != {tuple(x.shape)}")
+
+
 class Api:
     def __init__(self, case):
         import torch
@@ -199,6 +219,9 @@ class Api:
         if case["api"] == "module":
             from pydrobert.torch.modules import SpecAugment
             self.mod = SpecAugment(interpolation_order=self.order, **self.cfg)
+            # module life cycle: the object has already served other batches before the judged call
+            for step in case.get("history") or []:
+                run_history_step(self.mod, step)
         else:
             self.mod = None
             import pydrobert.torch.functional as Fn
@@ -285,7 +308,8 @@ class C08(PropertyCheck):
             "configurations from the grid of zero/non-zero limits (random + the enumerated 'exactly one limit 0'), "
             "proportions {0,1/8,1/4,1/2,1,0.04,random}, warps up to beyond half the length, orders 1-3, "
             "T, F and lengths down to 1, dtypes float32/64/16, five memory layouts, lengths None/int64/int32, "
-            "module direct or through a parent; uniform draws injected through a shadowed torch.rand "
+            "module direct or through a parent, fresh or after 1-3 earlier calls on the same object (same/other N, "
+            "fewer/more frames, other F/dtype, lengths omitted/given, eval/train, forward or draw+apply); uniform draws injected through a shadowed torch.rand "
             "(0, 2^-24, odd/16, k/8, 1-2^-24) or recorded from genuine torch.manual_seed runs. "
             "non-trivial: >= 1 mask of width > 0 or a non-zero warp; distinct by the whole case")
     assumptions = [
@@ -347,6 +371,22 @@ class C08(PropertyCheck):
             lens[rng.randrange(N)] = 1
         return lens
 
+    def _history(self, rng, N, T, Fq, same_n=0.75, omit=0.55):
+        """Earlier uses of the same module object: 1-3 calls on batches with the same or another N, fewer / more /
+        as many frames and coefficients, lengths omitted or given, other dtypes, training or evaluation mode,
+        through forward or through draw_parameters + apply_parameters."""
+        steps = []
+        for _ in range(rng.choice([1, 1, 2, 3])):
+            n = N if rng.random() < same_n else rng.randint(1, 4)
+            t = rng.choice([rng.randint(1, T), T + rng.randint(1, 8), T + rng.randint(1, 8), T, 1])
+            f = Fq if rng.random() < 0.5 else rng.randint(1, 6)
+            r = rng.random()
+            steps.append({"N": n, "T": t, "F": f, "lens": None if rng.random() < omit else self._lens(rng, n, t, False),
+                          "dtype": "float32" if r < 0.7 else "float64" if r < 0.88 or t > 40 else "float16",
+                          "training": rng.random() < 0.8, "op": "forward" if rng.random() < 0.8 else "draw_apply",
+                          "seed": rng.randrange(1 << 30)})
+        return steps
+
     def _vary(self, rng, c, half_ok=True):
         """Cross a case with the input classes that do not change what is specified: dtype, memory
         layout, dtype of the lengths, how the module is entered, the autograd mode."""
@@ -357,6 +397,11 @@ class C08(PropertyCheck):
         c["entry"] = "parent" if c.get("api") == "module" and rng.random() < 0.45 else "direct"
         r = rng.random()
         c["grad"] = "plain" if r < 0.7 else "no_grad" if r < 0.85 else "requires_grad"
+        # module life cycle: the judged call is not the first use of the object
+        if c.get("api") == "module" and rng.random() < 0.35:
+            c["history"] = self._history(rng, c["N"], c["T"], c["F"])
+            if c.get("kind") == "sa" and rng.random() < 0.4:
+                c["lens"] = None
         return c
 
     def cases(self, rng, tier):
@@ -425,6 +470,23 @@ class C08(PropertyCheck):
             c = self._sa(rng, N, T, Fq, self._lens(rng, N, T), cfg, order, draw,
                          rng.choice(["int", "pos", "randn"]), rng.choice(["module", "functional"]))
             yield self._vary(rng, c)
+        # -- module life cycle: ONE object, several batches (same N, other T / F / dtype, lengths omitted or
+        #    given, evaluation calls in between); the last call is judged like a call on a fresh object ----------
+        for i in range({"quick": 70, "thorough": 700, "search": 1200}[tier]):
+            N, T, Fq = rng.randint(1, 3), rng.randint(1, 12), rng.randint(1, 5)
+            cfg = self._small_cfg(rng, T, Fq, True)
+            if rng.random() < 0.6:      # masks that can reach the last valid frame
+                cfg.update({"max_time_mask": rng.choice([2, 5, 100]), "max_time_mask_proportion": "1",
+                            "num_time_mask": rng.choice([1, 2, 3]), "num_time_mask_proportion": "1"})
+            r = rng.random()
+            draw = {"mode": "inject", "u": self._draws(rng, cfg, N, "extreme" if r < 0.3 else "dyadic")} if r < 0.6 \
+                else {"mode": "seed", "seed": rng.randrange(1 << 30)}
+            lens = None if rng.random() < 0.6 else self._lens(rng, N, T, False)
+            c = self._sa(rng, N, T, Fq, lens, cfg, 1 if rng.random() < 0.8 else rng.choice([2, 3]), draw,
+                         rng.choice(["pos", "randn"]), "module")
+            c = self._vary(rng, c)
+            c["history"] = self._history(rng, N, T, Fq, same_n=0.9, omit=0.7)
+            yield c
         # -- user-supplied parameters handed to apply_parameters ------------------------------------------
         for i in range(n_params):
             yield self._params_case(rng)
@@ -705,7 +767,7 @@ class C08(PropertyCheck):
         x_before = x.clone()
         lens = make_lens(case)
         eff = [T] * N if case["lens"] is None else case["lens"]
-        api = Api({"cfg": DEFAULT_CFG, "order": case["order"], "api": case["api"]})
+        api = Api({"cfg": DEFAULT_CFG, "order": case["order"], "api": case["api"], "history": case.get("history")})
         absent = None if case["absent"] == "none" else torch.empty(0)
         el = case["elems"]
 
@@ -1171,6 +1233,16 @@ class C08(PropertyCheck):
               "layout=" + case.get("layout", "contig"), "entry=" + case.get("entry", "direct"),
               "grad=" + case.get("grad", "plain"),
               "lens=None" if case["lens"] is None else "lens=" + case.get("lens_dtype", "int64")]
+        hist = case.get("history") or []
+        t.append(f"history={len(hist)}")
+        for h in hist:
+            t.append("history:lens=" + ("omitted" if h["lens"] is None else "given")
+                     + "->" + ("omitted" if case["lens"] is None else "given"))
+            t.append("history:N=" + ("same" if h["N"] == case["N"] else "other"))
+            t.append("history:T=" + ("same" if h["T"] == case["T"] else "fewer" if h["T"] < case["T"] else "more"))
+            t.append("history:F=" + ("same" if h["F"] == case["F"] else "other"))
+            t.append("history:dtype=" + ("same" if h["dtype"] == case.get("dtype", "float32") else "other"))
+            t.append("history:op=" + (h["op"] if h["op"] != "forward" else "forward_train" if h["training"] else "forward_eval"))
         if 1 in eff:
             t.append("has_len=1")
         if case["T"] == 1:
@@ -1237,7 +1309,17 @@ class C08(PropertyCheck):
             return
         if case["kind"] not in ("sa", "params"):
             return
-        # the input classes first: the plain variant of the same call
+        # the life cycle first: a fresh object, then one earlier call fewer
+        if case.get("history"):
+            c = dict(case)
+            c.pop("history")
+            yield c
+            if len(case["history"]) > 1:
+                for i in range(len(case["history"])):
+                    c = dict(case)
+                    c["history"] = case["history"][:i] + case["history"][i + 1:]
+                    yield c
+        # the input classes: the plain variant of the same call
         for k, plain in (("layout", "contig"), ("dtype", "float32"), ("lens_dtype", "int64"), ("entry", "direct"),
                          ("grad", "plain")):
             if case.get(k, plain) != plain:
